@@ -22,6 +22,21 @@ def plan(tier):
                         '{ownership destructor, release() discarded, co_await release(), release()+clear(), try_lock probe} x release from normal code / from inside a coroutine',
                   data='none (the quantifier is the history)', bounds='N <= %d waiters' % (3 if tier == 'quick' else 4),
                   outside='releases from other threads / through a thread pool (E2 scenarios and C11)')]
+    lv = []
+    for n in (0, 1):
+        for st in itertools.product(range(4), repeat=n + 3):
+            for holder in range(n + 2):
+                for nlate in (0, 1):
+                    for ls in range(4):
+                        if tier == 'quick' and (sum(st) + holder + nlate + ls) % (8 if n == 0 else 32) != 0: continue
+                        lv.append([n] + list(st) + [holder, nlate, ls])
+    units.append(dict(engine='e1', name='fifo_late', tu='C08.cpp', entry='h_fifo_late', unwind=10, vectors=lv,
+                      concrete=[([0, 1, 1, 1, 0, 0, 1], []), ([1, 0, 1, 2, 3, 1, 1, 2], []), ([0, 3, 2, 1, 1, 1, 0], [])],
+                      space='late arrivals: N = 2..3 coroutines queued behind the owner, the owner releases, waiter h (1..N) keeps the mutex across a suspension while 1..2 further requests arrive, then '
+                            'everybody releases with its style {ownership destructor, release() discarded, co_await release(), release()+clear()}: every grant goes to the longest-waiting requester' +
+                            ('; every 8th (N=2) / 32nd (N=3) combination of the styles' if tier == 'quick' else '; full product'),
+                      data='none (the quantifier is the history)', bounds='N <= 3 initial waiters, <= 2 late requests',
+                      outside='releases from other threads (E2 scenarios)'))
     units += [dict(engine='e2', name='mutex_fifo', tu='C07.cpp', mode='sc', scenarios=C07.fifo_scenarios(tier), opts={'loop_bound': 4, 'rec_bound': 3}, timeout_s=900 if tier == 'quick' else 2400,
                   space='owner + two requesters whose arrival order is fixed by a hand-shake (request 2 is published before request 3 starts); the owner releases at any time; '
                         'oracle: grant order = arrival order, every request granted, mutex lockable again, nobody blocked forever',
